@@ -139,6 +139,10 @@ func (c *client) CasByVersion(ctx context.Context, record kvs.Record) (kvs.Recor
 		})
 		return err
 	}, key)
+	if err == redis.TxFailedErr {
+		// the watched key was changed by somebody else between the version check and EXEC
+		err = errors.ErrConflict
+	}
 	return record, err
 }
 
